@@ -30,7 +30,8 @@ func (e *Engine) harnessAPI2(name string, args []Value, fn *ssa.Function) (Value
 		return TupleV{r, s}, true
 	case "vOnCurve":
 		pub := e.load(args[0].(PtrV)).(*StructV)
-		return e.tt.UF("onCurve", 0, e.intern("key", e.ecPubID(pub))), true
+		kc, kx, ky := e.ecKeyTerms(pub)
+		return e.tt.UF("onCurve", 0, kc, kx, ky), true
 	case "vRSAKeyValid":
 		p := e.mkRSAKey(e.argStr(args[0]))
 		pub := e.load(p).(*StructV).fields[0].(*StructV)
